@@ -278,7 +278,6 @@ func runC03(h *hz.H) {
 	h.Rep.Assumptions = []string{"dynamicpb's reflection-driven decoder (protobuf-go v1.34.0) is the reference decoder; streams it rejects are outside the property's domain and only counted", "decoded values are observed through protobuf-go struct reflection, not through the generated accessors"}
 }
 
-
 // evalAlias: C07 at the wire level. The decoded message must share no memory with the input, whatever
 // mix of occurrences the stream holds, also when decoding twice into the same message.
 func evalAlias(h *hz.H, md protoreflect.MessageDescriptor, recs []enum.Rec, bases [][]byte) {
